@@ -1232,6 +1232,14 @@ def main():
     out += gdefs
     out += fbuf
     out.append('void vp_run_ctors(void) { %s }' % ' '.join('%s();' % c for c in ctors if c in M.funcs))
+    # C18: the mutable (non-constant) globals of this unit, as one byte snapshot
+    mut = [(n, size_of(t)) for n, (kind, t) in M.globals.items() if kind == 'global' and not n.startswith(('_ZTV', '_ZTI', '_ZTS', 'llvm_')) and size_of(t) > 0]
+    out.append('uint64_t vp_globals_size(void) { return %dULL; }' % sum(sz for _, sz in mut))
+    body = []; off = 0
+    for n, sz in mut:
+        body.append('vp_memcpy(dst + %d, (char*)&%s, %d);' % (off, n, sz)); off += sz
+    out.append('void vp_globals_snapshot(char* dst) { %s }' % ' '.join(body))
+    open(sys.argv[2] + '.globals', 'w').write('\n'.join('%s %d' % x for x in mut) + '\n')
     open(sys.argv[2], 'w').write('\n'.join(out) + '\n')
     open(sys.argv[2] + '.funcs', 'w').write('\n'.join(M.funcs.keys()) + '\n')
     sys.stderr.write('functions: %d, globals: %d\n' % (len(M.funcs), len(M.globals)))
